@@ -1,5 +1,6 @@
 """C31 — generated output files are all-or-nothing."""
 import json
+import os
 from vt import core
 from vt.main import decide
 from translate import fsops_tr
@@ -40,37 +41,60 @@ def gen_grammar(r, i):
     return grammar, model + "\n"
 
 
-def model_expr(n, plan, pre):
-    fl = {"open": "AtOpen", "close": "AtClose", "replace": "AtReplace"}.get(plan["kind"])
-    if fl is None:
-        fl = "(AtWrite %d %s)" % (plan["k"], core.coq_bool(plan.get("partial", False)))
+STEP = {"B": "Buf", "A": "FlushAll", "K": "FlushKeep"}
+
+
+def model_failure(plan, events):
+    """The injected failure in the model's terms.  A low-level write index is mapped to the write event it
+    belongs to (an event = the low-level writes made by one write call or by close); a failure after the
+    first low-level write of an event has part of the event's data in the file."""
+    kind = plan["kind"]
+    if kind in ("open", "close", "replace"):
+        return {"open": "AtOpen", "close": "AtClose", "replace": "AtReplace"}[kind]
+    if not kind == "raw":
+        return "NoFailure"
+    k, e = plan["k"], 0
+    for e, n in enumerate(events):
+        if k < n:
+            return "(AtFlush %d %s %s)" % (e, core.coq_bool(plan["persistent"]), core.coq_bool(plan["partial"] or k > 0))
+        k -= n
+    return "(AtFlush %d %s %s)" % (len(events) + k, core.coq_bool(plan["persistent"]), core.coq_bool(plan["partial"]))
+
+
+def model_expr(n, sched, fl, pre):
     f0 = "{| target := %s; temp := None |}" % ("(Some [Chunk 999])" if pre else "None")
     chunks = "(seq 0 %d)" % n
-    return "show_run %d (gen_file %s %s %s %s) (gen_file false (fst (gen_file %s %s %s %s)) %s NoFailure)" % (
-        n, core.coq_bool(pre), f0, chunks, fl, core.coq_bool(pre), f0, chunks, fl, chunks)
+    sc = "[" + ";".join(STEP[x] for x in sched) + "]"
+    return "show_run %d %s (gen_file %s %s %s %s %s) (gen_file false (fst (gen_file %s %s %s %s %s)) %s %s NoFailure)" % (
+        n, sc, core.coq_bool(pre), f0, chunks, sc, fl, core.coq_bool(pre), f0, chunks, sc, fl, chunks, sc)
 
 
-IMPORTS = """From TxV Require Import Core.Base Core.Show Gen.SrcFs Model.Fs.
+IMPORTS = """From TxV Require Import Core.Base Core.Show Model.FsDefs Gen.SrcFs Model.Fs.
 Open Scope string_scope.
 Fixpoint piece_eqb (a b : piece) : bool := match a, b with Chunk i, Chunk j => Nat.eqb i j | PartOf i, PartOf j => Nat.eqb i j | _, _ => false end.
 Fixpoint pieces_eqb (a b : list piece) : bool := match a, b with [], [] => true | x :: a', y :: b' => piece_eqb x y && pieces_eqb a' b' | _, _ => false end.
 Definition show_target (n : nat) (t : option (list piece)) : string :=
   match t with None => "absent" | Some c => if pieces_eqb c (complete (seq 0 n)) then "complete" else if pieces_eqb c [Chunk 999] then "old" else "partial" end.
-Definition show_run (n : nat) (r1 r2 : fs * bool) : string :=
+Definition show_run (n : nat) (sc : list step) (r1 r2 : fs * bool) : string :=
   show_bool (snd r1) ++ "|" ++ show_target n (target (fst r1)) ++ "|" ++ (match temp (fst r1) with None => "clean" | Some _ => "leftover" end)
-  ++ "|" ++ show_target n (target (fst r2)).
+  ++ "|" ++ show_target n (target (fst r2)) ++ "|" ++ show_nat (n_events (seq 0 n) sc).
 """
 
 
 def run(chk):
     chk.prove([fsops_tr.translate])
-    nexp = 50 if chk.thorough else 5
+    nexp = 40 if chk.thorough else 5
     cases = []
+    cdir = os.path.join(core.VERIF, "corpus", "C31")
+    for fn in sorted(os.listdir(cdir)) if os.path.isdir(cdir) else []:      # corpus first
+        j = json.load(open(os.path.join(cdir, fn)))
+        cases.append({"kind": j["kind"], "grammar": j["grammar"], "model": j["model"], "bufsizes": j["bufsizes"], "quick": not chk.thorough})
     for i in range(nexp):
         r = chk.rng.split(i)
         g, m = gen_grammar(r, i)
-        for kind in (("mm-dot", "mm-plantuml", "model-dot") if chk.thorough or i < 2 else (["mm-dot", "mm-plantuml", "model-dot"][i % 3],)):
-            cases.append({"kind": kind, "grammar": g, "model": m})
+        small = r.choice([24, 48, 100, 333])
+        for kind in (("mm-dot", "mm-plantuml", "model-dot") if chk.thorough or i < 1 else (["mm-dot", "mm-plantuml", "model-dot"][i % 3],)):
+            cases.append({"kind": kind, "grammar": g, "model": m, "bufsizes": [0, small] + ([1500] if chk.thorough else []), "quick": not chk.thorough})
     chunks = [cases[i::core.NPROC] for i in range(core.NPROC)]
     chunks = [c for c in chunks if c]
     outs = core.run_impl_parallel("c31", [{"cases": ch} for ch in chunks])
@@ -84,40 +108,54 @@ def run(chk):
         if "error" in x:
             disagreements.append({"case": c, "impl": x["error"]})
             continue
-        for res in x["results"]:
-            exprs.append(model_expr(x["n_writes"], res["plan"], res["pre"]))
-            index.append((c, x, res))
+        for grp in x["groups"]:
+            chk.stat("events=%s" % (len(grp["events"]) if len(grp["events"]) < 4 else "4+"))
+            for res in grp["results"]:
+                exprs.append(model_expr(len(grp["sched"]), grp["sched"], model_failure(res["plan"], grp["events"]), res["pre"]))
+                index.append((c, x, grp, res))
     vals, errs = core.coq_eval("C31", IMPORTS, exprs)
     if errs:
         disagreements.append({"case": "coq evaluation", "model": errs[:2]})
-    for (c, x, res), mv in zip(index, vals):
-        key = json.dumps([c["kind"], c["grammar"], res["plan"], res["pre"]])
+    for (c, x, grp, res), mv in zip(index, vals):
+        plan = res["plan"]
+        key = json.dumps([c["kind"], c["grammar"], grp["bufsize"], plan, res["pre"]])
         chk.count(key, nontrivial=res["raised"] is not None)
         chk.stat(c["kind"])
-        chk.stat("fail@" + res["plan"]["kind"])
-        impl_s = "%s|%s|%s|%s" % ("T" if res["raised"] else "F", res["target"], "leftover" if res["leftovers"] else "clean", res["rerun_target"])
+        at_close = plan["kind"] == "raw" and grp["raw_total"] > plan["k"] >= grp["raw_total"] - (grp["events"][-1] if grp["events"] and grp["sched"][-1:] != ["A"] else 0)
+        chk.stat("fail@" + ("flush-at-close" if at_close else plan["kind"]))
+        chk.stat("buffer=" + ("default" if grp["bufsize"] == 0 else "small"))
+        impl_s = "%s|%s|%s|%s|%d" % ("T" if res["raised"] else "F", res["target"], "leftover" if res["leftovers"] else "clean", res["rerun_target"], len(grp["events"]))
+        brief = {"kind": c["kind"], "buffer_size": grp["bufsize"] or "default", "plan": plan, "pre": res["pre"], "grammar": c["grammar"]}
         if mv is not None and mv != impl_s:
-            disagreements.append({"case": {"kind": c["kind"], "plan": res["plan"], "pre": res["pre"], "grammar": c["grammar"]}, "impl": res, "model": mv})
+            disagreements.append({"case": brief, "impl": impl_s, "model": mv, "detail": {k: res[k] for k in ("raised", "size", "leftovers", "opened", "replaced")}})
         bad = None
+        expect_fire = plan["kind"] in ("open", "close", "replace") or (plan["kind"] == "raw" and plan["k"] < grp["raw_total"])
         if res["raised"] and str(res["raised"]).startswith("OTHER"):
             bad = "unexpected exception " + res["raised"]
         elif res["target"] == "partial":
-            bad = "a partially written %s is left behind after a failure at %s" % (x["target"], res["plan"])
+            bad = "a partially written %s (%d of %d bytes) is left behind after a failure at %s" % (x["target"], res["size"], x["full_size"], plan)
         elif res["leftovers"]:
             bad = "files left behind after the failure: %s" % res["leftovers"]
         elif res["raised"] and res["rerun_target"] != ("old" if res["pre"] else "complete"):
             bad = "the later run without --overwrite left the target %s" % res["rerun_target"]
         elif not res["raised"] and res["target"] != "complete":
-            bad = "run without failure left the target %s" % res["target"]
+            bad = "run without exception left the target %s" % res["target"]
+        elif expect_fire and res["fired"] and not res["raised"]:
+            bad = "the injected failure was swallowed"
         if bad:
-            failures.append({"case": {"kind": c["kind"], "plan": res["plan"], "pre": res["pre"], "grammar": c["grammar"], "model": c["model"]},
-                             "impl": res, "what": bad, "tags": []})
-        if chk.cov["evaluations"] % 200 == 17:
-            chk.sample({"kind": c["kind"], "plan": res["plan"], "pre_existing_target": res["pre"], "outcome": impl_s})
-    chk.cov["rule"] = ("%d exports (built-in textX->dot, textX->PlantUML, any->dot generators over fixed and random grammars/models) x an injected failure at open, at every write call "
-                       "(with and without partial data), at close and at os.replace, some also with a pre-existing target and --overwrite; each followed by a run without --overwrite; "
-                       "non-trivial = the injected failure fired; distinct by (generator, grammar, failure point, pre-existing)" % len(cases))
-    chk.cov["exhaustive"] = True
-    chk.assumptions += ["translator fsops_tr.py; open/os.replace semantics as in Model/Fs.v (replace is atomic; a crash of the process itself may leave the temporary file, never a partial target)",
-                        "failures are injected by wrapping builtins.open / os.replace in the runner process"]
+            failures.append({"case": dict(brief, model=c["model"]), "impl": {k: res[k] for k in ("raised", "target", "size", "leftovers", "rerun_target", "opened", "replaced")},
+                             "what": bad, "tags": []})
+        if chk.cov["evaluations"] % 300 == 17:
+            chk.sample({"kind": c["kind"], "buffer": grp["bufsize"] or "default", "plan": plan, "pre_existing_target": res["pre"], "outcome": impl_s})
+    chk.cov["rule"] = ("%d exports (built-in textX->dot, textX->PlantUML, any->dot generators over fixed and random grammars/models), each with the default file stack (8 KiB buffers: "
+                       "everything is written by the flush inside close) and a small write-through buffer (many low-level writes) x an injected failure at open, at low-level "
+                       "write calls of the raw file (first, last = flush at close, and a spread in between; once and persistently, with and without partial data), at close and at "
+                       "os.replace, some also with a pre-existing target and --overwrite; each followed by a run without --overwrite; "
+                       "non-trivial = the run raised; distinct by (generator, grammar, buffer, failure point, pre-existing)" % len(cases))
+    chk.cov["exhaustive"] = False
+    chk.assumptions += ["translator fsops_tr.py; open/os.replace/os.remove semantics as in Model/Fs.v (replace is atomic, an open file follows a rename; a crash of the process itself "
+                        "may leave the temporary file, never a partial target)",
+                        "buffering abstraction of Model/Fs.v: per write call Buf/FlushAll/FlushKeep, close flushes the rest (measured per run and compared: number of write events)",
+                        "failures are injected in the runner process below io.TextIOWrapper/io.BufferedWriter (io.FileIO subclass), and by wrapping builtins.open / os.replace"]
+    failures.sort(key=lambda f: 0 if f["impl"]["target"] == "partial" else 1)
     decide(chk, failures, disagreements)
